@@ -43,6 +43,11 @@ CHECKS = {
    note="Trusted: Coq kernel/vm_compute; Model/Progress.v; Python harness (FakeTimer, scheduler). Not carried by the model: CPython's threading.Timer and interpreter shutdown (observed in child processes only); pre-emption is modelled at Timer construction/start/cancel only.",
    technique="Coq inductive invariant over an interleaving transition system + trace replay / pre-emption injection / fault enumeration on the implementation",
    design="3/C19"),
+ "C20": dict(
+   text="Theorems (Coq): objects with mutable public parameters, memoised pure methods (memo cleared on every parameter update, as the repaired code does) and copies, for arbitrary parameter/result types and method: for every operation sequence every call answers exactly like a memo-free implementation from the object's current parameters (answers_current: refinement by an inductive 'memo consistent with current parameters' invariant); updates of one object never change another's answers and a copy keeps the parameters it was copied with (derived_unaffected, copy_independent); the pre-repair identity-keyed memo and closure-sharing copy are refuted. Tied to /repo by random new/set/call/copy sequences on PowerLawSD, CustomSD, CustomCorrelations (incl. the copy held by Bath), with the parameter version behind each answer observed through linearity; non-mutation of caller arrays, memory-layout independence and object re-use are explored on six public entry points.",
+   note="Trusted: Coq kernel/vm_compute; Model/Cache.v; Python harness. Outside the model (explored only): non-mutation of caller arrays, memory layout, re-use across computations.",
+   technique="Coq refinement proof (memoised state machine vs memo-free spec) + differential op-sequence correspondence; layout/mutation search on the implementation",
+   design="3/C20"),
 }
 
 NOT_YET = {}
